@@ -94,3 +94,29 @@ Example C09_example_truncate :
   Qlist_eqb (truncate (1#2) 12 [1#10; 6#10; 1#100; 29#100]) [0; 1; 0; 0] = true /\
   Qlist_eqb (truncate 1 2 [1#10; 6#10; 1#100; 29#100]) [0; 60#89; 0; 29#89] = true.
 Proof. vm_compute. split; reflexivity. Qed.
+
+(* ---------- the weight computation as the code performs it (with its clamps), re-translated from the source on every run ---------- *)
+Require Import XV.Real.SoftOps.
+Local Open Scope R_scope.
+(* the code accumulates the log-sigmoids with a left fold starting from 0: the same number as the model's path log-probability *)
+Theorem C09_code_accumulation_is_path_log_probability : forall z p, code_path_logp z p = path_logp z p.
+Proof. exact code_path_logp_eq. Qed.
+(* clamp(min=-50) -> max -> subtract -> exp -> sum -> clamp(min=tiny) -> divide: whenever no leaf has log-probability below -50
+   (probability below e^-50 ~ 2e-22) the code's weights ARE the gate products, for every tree and every logits *)
+Theorem C09_code_weights_are_gate_products : forall (L : Type) (tiny : R) (z : nat -> R) (T : tree L), tiny <= 1 ->
+  (forall mp, In mp (paths T) -> -50 <= path_logp z (snd mp)) ->
+  code_weights tiny (map (code_path_logp z) (map snd (paths T))) = map (fun mp => path_prob z (snd mp)) (paths T).
+Proof. exact @code_weights_are_gate_products. Qed.
+(* always (clamps active or not): positive weights summing to one *)
+Theorem C09_code_weights_form_a_distribution : forall tiny lps, tiny <= 1 -> lps <> [] ->
+  Forall (fun w => 0 < w) (code_weights tiny lps) /\ SoftReal.rsum (code_weights tiny lps) = 1.
+Proof. exact code_weights_distribution. Qed.
+(* the effect of the -50 clamp on a tree: a leaf with probability P >= e^-50 gets weight in [P / (1 + n e^-50), P]; a leaf below gets at most e^-50 *)
+Theorem C09_clamp_effect_is_negligible : forall (L : Type) tiny z (T : tree L), tiny <= 1 ->
+  let lps := map (code_path_logp z) (map snd (paths T)) in let n := length (paths T) in forall i, (i < n)%nat ->
+  let P := path_prob z (snd (nth i (paths T) (route T [], []))) in let w := nth i (code_weights tiny lps) 0 in
+  (exp (-50) <= P -> P / (1 + INR n * exp (-50)) <= w <= P) /\ (P < exp (-50) -> 0 < w <= exp (-50)).
+Proof. exact @clamp_effect_on_tree. Qed.
+Print Assumptions C09_code_weights_are_gate_products.
+Print Assumptions C09_code_weights_form_a_distribution.
+Print Assumptions C09_clamp_effect_is_negligible.
